@@ -74,17 +74,30 @@ def run(ctx):
                 # (C - clz(cast v)) possibly converted to IntT
                 while s.get('kind') in ('CStyleCastExpr', 'CXXStaticCastExpr', 'CXXFunctionalCastExpr', 'ImplicitCastExpr') and s.get('inner'):
                     s = strip(s['inner'][0])
-                ok = s.get('kind') == 'BinaryOperator' and s.get('opcode') == '-' and int_value(s['inner'][0]) is not None and any(x is cl[0] for x in walk(s['inner'][1]))
+                from poly import Poly as _Poly
+                PL_ = _Poly(f, w)
+                cpoly = PL_.poly(s['inner'][0]) if s.get('kind') == 'BinaryOperator' and s.get('inner') else None
+                ok = s.get('kind') == 'BinaryOperator' and s.get('opcode') == '-' and cpoly is not None and (cpoly == {} or list(cpoly) == [()]) and any(x is cl[0] for x in walk(s['inner'][1]))
                 if ok:
-                    C = int_value(s['inner'][0])
+                    C = cpoly.get((), 0)
                     arg = strip(call_args(cl[0])[0], casts=False)
                     at = dtype(arg)
                     ai = int_type_info(at)
                     src = arg
-                    while src.get('kind') in ('CStyleCastExpr', 'CXXStaticCastExpr', 'CXXFunctionalCastExpr', 'ImplicitCastExpr', 'ParenExpr') and src.get('inner'):
-                        src = src['inner'][0]
+                    chain_ok = True
+                    for _ in range(8):
+                        while src.get('kind') in ('CStyleCastExpr', 'CXXStaticCastExpr', 'CXXFunctionalCastExpr', 'ImplicitCastExpr', 'ParenExpr') and src.get('inner'):
+                            ti_ = int_type_info(dtype(src) or '')
+                            chain_ok = chain_ok and ti_ is not None and ti_[0] >= bits
+                            src = src['inner'][0]
+                        init_ = PL_.single(ref_decl(src)) if src.get('kind') == 'DeclRefExpr' else None
+                        if init_ is None:
+                            break
+                        ti_ = int_type_info(dtype(src) or '')
+                        chain_ok = chain_ok and ti_ is not None and ti_[0] >= bits
+                        src = init_
                     is_v = (ref_decl(src) or {}).get('id') == params_of(f)[0]['id']
-                    widen_ok = ai is not None and ai[0] == W and not ai[1] and W >= bits
+                    widen_ok = ai is not None and ai[0] == W and not ai[1] and W >= bits and chain_ok
                     ok = C == W - 1 and is_v and widen_ok
                     why = 'log2i computes %d - %s(%s): the builtin counts leading zeros of a %d-bit operand, so the constant must be %d%s' % (C, call_name(cl[0]), at, W, W - 1, '' if widen_ok else ' and the %d-bit argument must be widened to it as unsigned' % bits)
             ctx.check(ok, R, lab + '|width-agreement', f, 'result = %s - clz over the builtin\'s own width' % (CLZ[call_name(cl[0])] - 1 if cl else '?'), why)
